@@ -56,6 +56,46 @@ def base_patterns():
     return out
 
 
+LIMIT = 511        # the longest name the elaborator may generate (ElabPass.flatname)
+
+
+def long_cases():
+    """invented names at the length limit: the designer already owns the name the elaborator would generate, and no longer one exists.
+    The elaborator may refuse such a design, or find another name - but may not take the designer's name."""
+    out = []
+    for slack in (0, 1, 2):
+        pn = "a" * (LIMIT - 2 - slack)                      # u_<pn> has LIMIT - slack characters
+        inner = U.mod([U.sig(pn, 1, True)])
+        target = "u_" + pn
+        names = [target + "_" * k for k in range(slack + 1)]     # every candidate up to the limit is taken
+        for which in ("portref", "noconn"):
+            if which == "portref":
+                insts = [U.inst("u", "InnerL", []), U.inst("v", "InnerL", [(pn, Pref("u", pn))])]
+            else:
+                insts = [U.inst("u", "InnerL", [(pn, Nc(1))]), U.inst("v", "InnerL", [(pn, Sig("s"))])]
+            for order in ("before", "after"):
+                sigs = [U.sig("s")] + [U.sig(n) for n in names]
+                top = U.mod(sigs, insts)
+                base = ["s"] + [i["n"] for i in top["insts"] if not any(i["n"] == f"pr_{n}_0" for n in names)]
+                mine = names + [f"pr_{n}_0" for n in names]
+                top["order"] = (mine + base) if order == "before" else (base + mine)
+                out.append({"pattern": "limit_" + which, "target": f"u_a*{len(pn)}", "taken": [f"{len(n)} chars" for n in names], "kind": "signal", "order": order,
+                            "D": U.design({"InnerL": inner, "Top": top})})
+        nm = "o" * (LIMIT - slack)
+        names = [nm + "_" * k for k in range(slack + 1)]
+        inner1 = U.child(1)
+        for order in ("before", "after"):
+            sigs = [U.sig("s")] + [U.sig(n) for n in names]
+            insts = [U.inst("i0", "Inner", [("a", Nc(1, nm))]), U.inst("i1", "Inner", [("a", Sig("s"))])]
+            top = U.mod(sigs, insts)
+            base = ["s"] + [i["n"] for i in top["insts"] if not any(i["n"] == f"pr_{n}_0" for n in names)]
+            mine = names + [f"pr_{n}_0" for n in names]
+            top["order"] = (mine + base) if order == "before" else (base + mine)
+            out.append({"pattern": "limit_named_noconn", "target": f"o*{len(nm)}", "taken": [f"{len(n)} chars" for n in names], "kind": "signal", "order": order,
+                        "D": U.design({"Inner": inner1, "Top": top})})
+    return out
+
+
 def relabel(pattern, D, inv_sigs, inv_insts):
     """yield designs with designer objects named like the invented names"""
     allinv = inv_sigs + inv_insts
@@ -63,7 +103,7 @@ def relabel(pattern, D, inv_sigs, inv_insts):
     for target in allinv:
         for extra_us in (0, 1, 2):
             names = [target + "_" * k for k in range(extra_us + 1)]          # target, target_, target__ all taken
-            for kind in ("signal", "signal2", "instance", "bundle"):
+            for kind in ("signal", "signal2", "instance", "bundle", "array"):
                 for order in ("before", "after"):
                     D2 = copy.deepcopy(D)
                     top = D2["mods"]["Top"]
@@ -80,6 +120,14 @@ def relabel(pattern, D, inv_sigs, inv_insts):
                         elif kind == "instance":
                             top["insts"].append(U.inst(n, "L1", [("a", Sig("s"))], k="ext"))
                             new.append(n)
+                        elif kind == "array":
+                            # an InstanceArray of the designer's, named like an invented name (its own elements are invented names in turn)
+                            top["sigs"].append(U.sig("aw_" + n, 2))
+                            for k in range(2):
+                                top["insts"].append(U.probe(f"dp_aw_{n}_{k}", U.bit("aw_" + n, 2, k)))
+                                new.append(f"dp_aw_{n}_{k}")
+                            top["insts"].append(U.inst(n, "L1", [("a", Sig("aw_" + n))], kind="array", arr=2, k="ext"))
+                            new = ["aw_" + n] + new + [n]
                         elif kind == "bundle":
                             D2["bundles"].setdefault("B1", U.B1)
                             top["bundles"].append(U.bnd(n, "B1"))
@@ -129,6 +177,7 @@ def run(tier, seed, replay_file=None):
         cases = []
         for pat, D, s, i in base_patterns():
             cases += list(relabel(pat, D, s, i))
+        cases += long_cases()
     evs = pool_map(run_case, list(enumerate(cases)), chunksize=16)
     files = tlc.split_batches([[e] for e in evs], WORK / "c05", f"tr-{tier}", NPROC)
     res = tlc.validate_batches("trace/Trace_Names.tla", "trace/Trace_Names.cfg", files, jobs=NPROC, tag="c05val")
